@@ -122,6 +122,50 @@ func checkRunIDOrigin(c *Ctx) {
 	R.Floor("R11.1:echoID-stores", n, 1)
 }
 
+// allAtomic: the type is a sync/atomic value, or a struct all of whose fields are (an allocator: nothing in it can be touched
+// except through atomic operations).
+func allAtomic(t types.Type) bool {
+	if nt, ok := t.(*types.Named); ok && nt.Obj().Pkg() != nil && nt.Obj().Pkg().Path() == "sync/atomic" {
+		return true
+	}
+	st, ok := t.Underlying().(*types.Struct)
+	if !ok || st.NumFields() == 0 {
+		return false
+	}
+	for i := 0; i < st.NumFields(); i++ {
+		if !allAtomic(st.Field(i).Type()) {
+			return false
+		}
+	}
+	return true
+}
+
+// counterBijection: t is the result of one atomic Add, converted to 16 or more bits and shifted by constants only – a bijection
+// of the counter value modulo the identifier width, so two allocations differ as long as fewer than 2^16 are live.
+func counterBijection(t *core.Term) bool {
+	switch {
+	case t.Op == "call" && strings.HasSuffix(t.Name, ".Add") && strings.Contains(t.Name, "atomic"):
+		return true
+	case t.Op == "conv":
+		if bits, _ := core.IntBits(t.Typ); bits != 0 && bits < 16 {
+			return false
+		}
+		return counterBijection(t.Args[0])
+	case t.Op == "binop" && (t.Name == "+" || t.Name == "-") && len(t.Args) == 2:
+		if t.Args[1].Op == "const" {
+			return counterBijection(t.Args[0])
+		}
+		if t.Args[0].Op == "const" && t.Name == "+" {
+			return counterBijection(t.Args[1])
+		}
+		// Add(n) - n with the same n: the start of the block
+		if t.Name == "-" && t.Args[0].Op == "call" && strings.HasSuffix(t.Args[0].Name, ".Add") && len(t.Args[0].Args) == 2 && t.Args[0].Args[1].Key() == t.Args[1].Key() {
+			return true
+		}
+	}
+	return false
+}
+
 // checkAllocators is R11.2 / R14.3.
 func checkAllocators(c *Ctx, rule string) {
 	R := c.R
@@ -130,50 +174,81 @@ func checkAllocators(c *Ctx, rule string) {
 		reach[f] = true
 	}
 	natomic := 0
+	// allocator state: package-level variables that are a sync/atomic value, or a struct made of sync/atomic values only
 	for _, pk := range c.P.SSAPkgs {
 		for _, m := range pk.Members {
-			g, ok := m.(*ssa.Global)
-			if !ok {
-				continue
+			if g, ok := m.(*ssa.Global); ok && allAtomic(g.Type().(*types.Pointer).Elem()) {
+				natomic++
 			}
-			et := g.Type().(*types.Pointer).Elem()
-			nt, ok := et.(*types.Named)
-			if !ok || nt.Obj().Pkg() == nil || nt.Obj().Pkg().Path() != "sync/atomic" {
-				continue
-			}
-			natomic++
-			gname := pk.Pkg.Name() + "." + g.Name()
-			for _, f := range c.P.ModFuncs {
-				ops := map[string]int{}
-				var pos token.Pos
-				for _, b := range f.Blocks {
-					for _, in := range b.Instrs {
-						ci, ok := in.(ssa.CallInstruction)
-						if !ok {
-							continue
-						}
-						cc := ci.Common()
-						if cal := cc.StaticCallee(); cal != nil && len(cc.Args) > 0 && cc.Args[0] == ssa.Value(g) {
-							ops[cal.Name()]++
-							pos = in.Pos()
-						}
+		}
+	}
+	// every atomic cell (a global, or a field of a module struct type) is touched, per function on the run path, by exactly one Add
+	type cellUse struct {
+		ops map[string]int
+		pos token.Pos
+	}
+	uses := map[*ssa.Function]map[string]*cellUse{}
+	for _, f := range c.P.ModFuncs {
+		for _, b := range f.Blocks {
+			for _, in := range b.Instrs {
+				ci, ok := in.(ssa.CallInstruction)
+				if !ok {
+					continue
+				}
+				cc := ci.Common()
+				cal := cc.StaticCallee()
+				if cal == nil || cal.Pkg == nil || cal.Pkg.Pkg.Path() != "sync/atomic" || len(cc.Args) == 0 {
+					continue
+				}
+				cell := ""
+				switch x := cc.Args[0].(type) {
+				case *ssa.Global:
+					if x.Pkg != nil && strings.HasPrefix(x.Pkg.Pkg.Path(), core.ModulePath) {
+						cell = x.Pkg.Pkg.Name() + "." + x.Name()
+					}
+				case *ssa.FieldAddr:
+					if k, nt := typedFieldKey(x); k != "" && strings.HasPrefix(nt.Obj().Pkg().Path(), core.ModulePath) {
+						cell = k
 					}
 				}
-				if len(ops) == 0 {
+				if cell == "" {
 					continue
 				}
-				key := fmt.Sprintf("%s#atomic[%s]", core.FuncName(f), gname)
-				if !reach[f] {
-					R.Info(rule, key, pos, core.FuncName(f), fmt.Sprintf("uses %v but is not reachable from the run entry points (test helper)", ops))
-					continue
+				if uses[f] == nil {
+					uses[f] = map[string]*cellUse{}
 				}
-				bad := ops["Load"] > 0 || ops["Store"] > 0 || ops["Swap"] > 0
-				multi := 0
-				for _, n := range ops {
-					multi += n
+				if uses[f][cell] == nil {
+					uses[f][cell] = &cellUse{ops: map[string]int{}}
 				}
-				R.Check(!bad && multi == 1 && ops["Add"] == 1, rule, key, pos, core.FuncName(f), "one atomic Add per allocation", fmt.Sprintf("allocator touches %s with %v: an allocation must be a single atomic read-modify-write (Add)", gname, ops))
+				uses[f][cell].ops[cal.Name()]++
+				uses[f][cell].pos = in.Pos()
 			}
+		}
+	}
+	var fs []*ssa.Function
+	for f := range uses {
+		fs = append(fs, f)
+	}
+	sort.Slice(fs, func(i, j int) bool { return core.FuncName(fs[i]) < core.FuncName(fs[j]) })
+	for _, f := range fs {
+		var cells []string
+		for k := range uses[f] {
+			cells = append(cells, k)
+		}
+		sort.Strings(cells)
+		for _, gname := range cells {
+			ops, pos := uses[f][gname].ops, uses[f][gname].pos
+			key := fmt.Sprintf("%s#atomic[%s]", core.FuncName(f), gname)
+			if !reach[f] {
+				R.Info(rule, key, pos, core.FuncName(f), fmt.Sprintf("uses %v but is not reachable from the run entry points (test helper)", ops))
+				continue
+			}
+			bad := ops["Load"] > 0 || ops["Store"] > 0 || ops["Swap"] > 0
+			multi := 0
+			for _, n := range ops {
+				multi += n
+			}
+			R.Check(!bad && multi == 1 && ops["Add"] == 1, rule, key, pos, core.FuncName(f), "one atomic Add per allocation", fmt.Sprintf("allocator touches %s with %v: an allocation must be a single atomic read-modify-write (Add)", gname, ops))
 		}
 	}
 	R.Floor(rule+":atomic-globals", natomic, 2)
@@ -185,7 +260,8 @@ func checkAllocators(c *Ctx, rule string) {
 	if f == nil {
 		R.Fail(rule, "packets.AllocPacketID#anchor", 0, "", "anchor packets.AllocPacketID no longer resolves")
 	} else {
-		rps, _ := core.ReturnPaths(c.P, f, 100)
+		// inlined paths: the read-modify-write may sit in a method of an allocator type
+		rps := InlinedPaths(c.P, f, inlineOpts{pkg: core.FuncPkg(f), stop: hasLoop})
 		for _, rp := range rps {
 			r := rp.Results[0].StripConv()
 			ok := r.Op == "binop" && r.Name == "-" && r.Args[0].Op == "call" && strings.HasSuffix(r.Args[0].Name, ".Add") &&
@@ -197,17 +273,16 @@ func checkAllocators(c *Ctx, rule string) {
 	if ne := c.P.Func("icmp.nextEchoID"); ne == nil {
 		R.Fail(rule, "icmp.nextEchoID#anchor", 0, "", "anchor icmp.nextEchoID no longer resolves")
 	} else {
-		rps, _ := core.ReturnPaths(c.P, ne, 100)
+		rps := InlinedPaths(c.P, ne, inlineOpts{pkg: core.FuncPkg(ne), openAll: true, stop: hasLoop})
 		ok := len(rps) == 1
 		desc := ""
 		for _, rp := range rps {
-			r := rp.Results[0].StripConv()
 			desc = rp.Results[0].String()
-			if !(r.Op == "call" && strings.HasSuffix(r.Name, ".Add") && len(rp.Atoms) == 0) {
+			if !(counterBijection(rp.Results[0]) && len(rp.Atoms) == 0) {
 				ok = false
 			}
 		}
-		R.Check(ok, rule, "icmp.nextEchoID#result", ne.Pos(), core.FuncName(ne), "the echo id is the atomically incremented counter itself (mod 2^16)", fmt.Sprintf("the echo id is post-processed after the atomic increment (%d return paths, e.g. %s): two allocations can yield the same identifier while fewer than 65536 are live", len(rps), desc))
+		R.Check(ok, rule, "icmp.nextEchoID#result", ne.Pos(), core.FuncName(ne), "the echo id is the atomically incremented counter (mod 2^16), shifted by constants at most", fmt.Sprintf("the echo id is post-processed after the atomic increment (%d return paths, e.g. %s): two allocations can yield the same identifier while fewer than 65536 are live", len(rps), desc))
 	}
 	// SYN driver ids are base + widen(ttl) with base from AllocPacketID(MaxTTL)
 	for _, d := range Drivers(c.P) {
@@ -303,6 +378,7 @@ func checkGlobals(c *Ctx) {
 		typ  string
 		fn   *ssa.Function
 		in   ssa.Instruction
+		atomic bool
 	}
 	seenUse := map[string]bool{}
 	var uses []guse
@@ -346,7 +422,7 @@ func checkGlobals(c *Ctx) {
 						continue
 					}
 					seenUse[name] = true
-					uses = append(uses, guse{name, g.Type().(*types.Pointer).Elem().String(), f, in})
+					uses = append(uses, guse{name, g.Type().(*types.Pointer).Elem().String(), f, in, allAtomic(g.Type().(*types.Pointer).Elem())})
 				}
 			}
 		}
@@ -356,7 +432,7 @@ func checkGlobals(c *Ctx) {
 		key := "run-path#shared-global[" + u.name + "]"
 		if why, ok := sharedGlobals[u.name]; ok {
 			R.OK("R11.3", key, u.in.Pos(), core.FuncName(u.fn), "reviewed: "+why)
-		} else if strings.HasPrefix(u.typ, "sync/atomic.") {
+		} else if strings.HasPrefix(u.typ, "sync/atomic.") || u.atomic {
 			R.OK("R11.3", key, u.in.Pos(), core.FuncName(u.fn), "an atomic counter: its uses are decided by R11.2 (one Add per allocation)")
 		} else {
 			R.Fail("R11.3", key, u.in.Pos(), core.FuncName(u.fn), "package-level variable "+u.name+" ("+u.typ+") is reference-typed or used through its address on the run path and is not in the reviewed table: concurrent runs share whatever it holds")
